@@ -500,6 +500,14 @@ static int size_of_program (const unsigned char *t, size_t n) {
   return sz;
 }
 
+/* the parent compiles a few things itself (baseline probe, calibration); a compiler that loops there would hang the whole check */
+static const char *parent_phase = "boot";
+static void parent_alarm (int sig) {
+  (void) sig;
+  fprintf (stderr, "h_c02: the compiler did not return within the time limit in the parent (%s)\n", parent_phase);
+  syscall (SYS_exit_group, 3);
+}
+
 /* ------------------------------------------------------------------ boot */
 static void make_lib (void) {
   char cmd[3 * PATH_MAX];
@@ -525,6 +533,8 @@ int main (int argc, char **argv) {
   verbose = (int) vx_opt_long ("verbose", 0);
   c02_maxlocals = (int) vx_opt_long ("maxlocals", 25);
   if (probe_every < 1) probe_every = 1;
+  signal (SIGALRM, parent_alarm);
+  alarm (300);
   make_lib ();
   if (!strcmp (part, "sweep")) sweep_prepare (thorough);
   snprintf (conf, sizeof conf, "MaxLocalVariables %d\nMaxInheritDepth 30\nIncludeDir /c02/inc\n", c02_maxlocals);
@@ -539,6 +549,7 @@ int main (int argc, char **argv) {
 
   /* baseline: the probe compiled in the freshly booted driver; compiled twice to show the baseline itself is a fixed point */
   outcome_t second;
+  parent_phase = "baseline probe";
   vw_c02_ident_snapshot ();
   compile_input ("c02/probe.c", probe_text, probe_len, 0, &base_probe, 1);
   if (!base_probe.have_prog || base_probe.nerr || base_probe.problems) {
@@ -583,6 +594,7 @@ int main (int argc, char **argv) {
     pid_t cpid = fork ();
     if (cpid == 0) {
       int bad = 0;
+      alarm (240);
       for (int i = 0; i < ncorpus; i++) {
         char d[300]; outcome_t o;
         gen_edit (edit_prefix[i], &work, d, sizeof d);
@@ -592,9 +604,29 @@ int main (int argc, char **argv) {
       syscall (SYS_exit_group, bad);
     }
     int cst = 0; waitpid (cpid, &cst, 0);
-    if (!WIFEXITED (cst) || WEXITSTATUS (cst)) { fprintf (stderr, "corpus check failed (status %x)\n", cst); if (!vx_opt ("allow-bad-corpus", 0)) return 2; }
+    /* exit 1 = a corpus program is not valid LPC (a broken corpus); a crash or a hang of the helper is left to the
+       enumeration, which compiles every unedited program as an element and reports it with its input */
+    if (WIFEXITED (cst) && WEXITSTATUS (cst) == 1) { fprintf (stderr, "corpus check failed (status %x)\n", cst); if (!vx_opt ("allow-bad-corpus", 0)) return 2; }
+    else if (!WIFEXITED (cst) || WEXITSTATUS (cst)) fprintf (stderr, "corpus check helper ended abnormally (status %x)\n", cst);
   }
-  else if (!strcmp (part, "sweep")) { if (c02_maxlocals == 25) sweep_calibrate (size_of_program); total = sweep_total (); }
+  else if (!strcmp (part, "sweep")) {
+    if (c02_maxlocals == 25) {
+      /* calibration compiles 15 programs: in a helper child (fresh state for the children of vx), results through a pipe */
+      int pfd[2]; int vals[32];
+      parent_phase = "sweep calibration";
+      if (pipe (pfd)) return 2;
+      fflush (0);
+      pid_t cp = fork ();
+      if (cp == 0) { close (pfd[0]); alarm (120); sweep_calibrate (size_of_program); int n = sweep_calibration_export (vals, 32); if (write (pfd[1], vals, sizeof (int) * (size_t) n) < 0) {} syscall (SYS_exit_group, 0); }
+      close (pfd[1]);
+      ssize_t r = read (pfd[0], vals, sizeof vals);
+      close (pfd[0]);
+      int cst = 0; waitpid (cp, &cst, 0);
+      if (r > 0) sweep_calibration_import (vals, (int) (r / (ssize_t) sizeof (int)));
+      else fprintf (stderr, "h_c02: sweep calibration failed (status %x): the code-size family is generated uncalibrated\n", cst);
+    }
+    total = sweep_total ();
+  }
   else if (!strcmp (part, "hist")) {
     total = hist_total ();
     /* fresh-driver outcome of each candidate: each in its own child of this freshly booted process */
@@ -603,7 +635,7 @@ int main (int argc, char **argv) {
       if (pipe (pfd)) return 2;
       fflush (0);
       pid_t pid = fork ();
-      if (pid == 0) { char o[1800]; close (pfd[0]); hist_outcome (k, o, sizeof o); if (write (pfd[1], o, strlen (o) + 1) < 0) {} syscall (SYS_exit_group, 0); }
+      if (pid == 0) { char o[1800]; close (pfd[0]); alarm (60); hist_outcome (k, o, sizeof o); if (write (pfd[1], o, strlen (o) + 1) < 0) {} syscall (SYS_exit_group, 0); }
       close (pfd[1]);
       size_t off = 0; ssize_t r;
       while ((r = read (pfd[0], hist_alone[k] + off, sizeof hist_alone[k] - 1 - off)) > 0) off += (size_t) r;
@@ -620,6 +652,7 @@ int main (int argc, char **argv) {
     char sym[256];
     if (__sanitizer_symbolize_pc) __sanitizer_symbolize_pc ((void *) compile_file, "%f %s:%l", sym, sizeof sym);
   }
+  alarm (0);
   vx_set_enum (total, element, describe);
   return vx_run (argc, argv, 0);
 }
